@@ -107,15 +107,18 @@ class Sched:
     self._kind = kind if replay is None else 'replay'
 
   # -- construction -------------------------------------------------------
-  def spawn(self, fn, name=None):
-    """Registers a new managed thread; may be called before or during run()."""
+  def spawn(self, fn, name=None, thread_name=None):
+    """Registers a new managed thread; may be called before or during run().
+
+    thread_name: the threading.Thread name (default 'sim-<tid>'); callers may
+    give several threads the same name, as worker pools do."""
     tid = len(self.threads)
     t = _T(tid, name or ('t%d' % tid), fn)
     if self._kind == 'pct':
       t.prio = self.rng.random() + 1.0
     self.threads.append(t)
-    th = threading.Thread(target=self._bootstrap, args=(t,), name='sim-%d' % tid,
-                          daemon=True)
+    th = threading.Thread(target=self._bootstrap, args=(t,),
+                          name=thread_name or 'sim-%d' % tid, daemon=True)
     t.thread = th
     t.state = 'runnable'
     th.start()   # it immediately parks on its gate
